@@ -1,3 +1,14 @@
--- This module serves as the root of the `Zog` library.
--- Import modules here that should be built as part of the library.
+-- Root of the `Zog` library: the model, the generated tables/facts, the property theorems.
 import Zog.Basic
+import Zog.Sexp
+import Zog.Schema
+import Zog.Zero
+import Zog.Path
+import Zog.Msg
+import Zog.Coerce
+import Zog.Preds
+import Zog.Engine
+import Zog.Wire
+import Zog.Gen.Tables
+import Zog.Gen.Facts
+import Zog.Gen.Catalogue
